@@ -20,7 +20,7 @@ from checks.c08 import lib_digest
 
 SPEC = {
     "level": "fault_enumeration",
-    "technique": "invariant monitor (exactly-one-of success/failure, no crash) over mutated inputs at library, driver and process level + single-fault enumeration of every file read and write; libFuzzer as workload generator in the thorough tier",
+    "technique": "invariant monitor (exactly-one-of success/failure, no crash) over mutated inputs at library, driver and process level + single-fault enumeration of every file read and write; libFuzzer as coverage-guided workload generator and valgrind memcheck over real command lines in the thorough tier",
     "level_text": ("Fault enumeration + exploration: for every job each input file is made missing and unreadable in turn and "
                    "each output write is made to fail in turn (complete enumeration of single permanent I/O faults for that "
                    "job), and tens of thousands of token-level mutants (non-ASCII anywhere) and option combinations are run "
